@@ -714,6 +714,36 @@ def hand_cases2(ctx, res):
                 res.failures.append(dict(what="supplied argument(s) %s silently left out of the XML (%s): %s" % (lost, what, emitted[:300]), case=case))
 
 
+def nillable_spelling_cases(ctx, res):
+    """a required element called with None: refused unless the declaration says nillable - in every lexical spelling of the
+    xsd:boolean attribute (absent, false, 0 mean "not nillable")"""
+    import zeep.xsd
+    for spelling, nillable in ((None, False), ("false", False), ("0", False), ("true", True)):
+        for kind, ty in (("leaf", 'type="xs:string"'), ("record", 'type="t:R"')):
+            attr = "" if spelling is None else ' nillable="%s"' % spelling
+            xsd = ('<xs:schema xmlns:xs="http://www.w3.org/2001/XMLSchema" xmlns:t="urn:fam" targetNamespace="urn:fam" elementFormDefault="qualified">'
+                   '<xs:complexType name="R"><xs:sequence><xs:element name="x" type="xs:string"/></xs:sequence></xs:complexType>'
+                   '<xs:element name="root"><xs:complexType><xs:sequence><xs:element name="a" type="xs:string"/><xs:element name="r" %s%s/>'
+                   '</xs:sequence></xs:complexType></xs:element></xs:schema>' % (ty, attr))
+            zs = zeep.xsd.Schema(etree.fromstring(xsd.encode()))
+            e = zs.get_element("{urn:fam}root")
+            for how, kw in (("explicit None", dict(a="A", r=None)), ("not mentioned", dict(a="A"))):
+                res.case(key=("nillable-spelling", spelling, kind, how), nontrivial=True)
+                res.count("hand-written:nillable-spellings")
+                case = dict(kind="hand2", probe="nillable-spelling", spelling=spelling, member=kind, how=how)
+                try:
+                    parent = etree.Element("p")
+                    e.render(parent, e(**kw))
+                    out, emitted = "ok", etree.tostring(parent[0]).decode()
+                except Exception as ex:  # noqa
+                    out, emitted = type(ex).__name__, str(ex)[:100]
+                if not nillable and out == "ok":
+                    res.failures.append(dict(what="a call that leaves out the required, non-nillable member (nillable %s; %s) is accepted: %s"
+                                                  % ("absent" if spelling is None else "= %r" % spelling, how, emitted[:200]), case=case))
+                if nillable and out != "ok":
+                    res.failures.append(dict(what="None for a nillable required member is refused: %s %s" % (out, emitted), case=case))
+
+
 EDIT_WSDL = """<?xml version="1.0"?>
 <definitions xmlns="http://schemas.xmlsoap.org/wsdl/" xmlns:soap="http://schemas.xmlsoap.org/wsdl/soap/"
   xmlns:xsd="http://www.w3.org/2001/XMLSchema" xmlns:tns="urn:ed" targetNamespace="urn:ed">
@@ -805,6 +835,7 @@ def run(ctx):
     hand_cases(ctx, res)
     inplace_edit_history(ctx, res)
     hand_cases2(ctx, res)
+    nillable_spelling_cases(ctx, res)
     kwtie.kw_tie(ctx, res, ctx.model.run if ctx.model else None)
     kwtie.kwrecord_tie(ctx, res, ctx.model.run if ctx.model else None)
     n = ctx.n(120, 2000)
@@ -863,9 +894,16 @@ def replay(ctx, payload):
         r = Result()
         inplace_edit_history(ctx, r)
         return (not r.failures), (r.failures[0]["what"] if r.failures else "holds")
+    if payload.get("case", payload).get("probe") == "nillable-spelling":
+        r = Result()
+        nillable_spelling_cases(ctx, r)
+        c = payload.get("case", payload)
+        bad = [f for f in r.failures if all(f["case"][k] == c[k] for k in ("spelling", "member", "how"))]
+        return (not bad), "nillable spelling rerun: %s" % (bad[0]["what"] if bad else "holds")
     if payload.get("case", payload).get("kind") == "hand2":
         r = Result()
         hand_cases2(ctx, r)
+        nillable_spelling_cases(ctx, r)
         c = payload.get("case", payload)
         bad = [f for f in r.failures if f["case"]["element"] == c["element"] and f["case"]["convention"] == c["convention"] and f["case"]["kwargs"] == c["kwargs"]]
         return (not bad), "hand-written case rerun: %s" % (bad[0]["what"] if bad else "holds")
